@@ -6,6 +6,8 @@ import (
 	"os"
 	"path/filepath"
 	"sort"
+
+	"github.com/roddhjav/apparmor.d/pkg/logs"
 )
 
 func debugMain(args []string) int {
@@ -18,6 +20,12 @@ func debugMain(args []string) int {
 		}
 		for _, it := range Scan(string(b)) {
 			j, _ := json.Marshal(it)
+			fmt.Println(string(j))
+		}
+	case "logs":
+		// dbg logs  < lines on stdin: the maps logs.New returns
+		for _, m := range logs.New(os.Stdin, "") {
+			j, _ := json.Marshal(m)
 			fmt.Println(string(j))
 		}
 	case "scanstats":
